@@ -168,10 +168,11 @@ class ConstantLengthTupleProvider(LoaderProvider, DumperProvider):
 
         def dt_disable_non_sc_loader(data):
             try:
-                data_len = len(data)
+                value_tuple = tuple(data)  # like other debug trail modes, accept any iterable
             except TypeError:
                 raise TypeLoadError(tuple, data)
 
+            data_len = len(value_tuple)
             if data_len != loaders_len:
                 if data_len > loaders_len:
                     raise ExtraItemsLoadError(loaders_len, data)
@@ -180,7 +181,7 @@ class ConstantLengthTupleProvider(LoaderProvider, DumperProvider):
 
             return tuple(
                 loader(field)
-                for loader, field in zip(loaders, data)
+                for loader, field in zip(loaders, value_tuple)
             )
 
         return dt_disable_non_sc_loader
@@ -195,10 +196,11 @@ class ConstantLengthTupleProvider(LoaderProvider, DumperProvider):
                 raise ExcludedTypeLoadError(tuple, str, data)
 
             try:
-                data_len = len(data)
+                value_tuple = tuple(data)  # like other debug trail modes, accept any iterable
             except TypeError:
                 raise TypeLoadError(tuple, data)
 
+            data_len = len(value_tuple)
             if data_len != loaders_len:
                 if data_len > loaders_len:
                     raise ExtraItemsLoadError(loaders_len, data)
@@ -207,7 +209,7 @@ class ConstantLengthTupleProvider(LoaderProvider, DumperProvider):
 
             return tuple(
                 loader(field)
-                for loader, field in zip(loaders, data)
+                for loader, field in zip(loaders, value_tuple)
             )
 
         return dt_disable_sc_loader
